@@ -18,11 +18,14 @@ ASSUMPTIONS = [
 
 
 # --------------------------------------------------------------------------------------------- (a)
+FOLLOWERS = ["\ufe0f", "\ufe0e", "\u200d", "\u0301", "\u20e3"]
+
+
 class CodePoints(Part):
     name = "codepoints"
     custom = True
     exhaustive = True
-    rule = ("all 1,114,112 code points (sharded), each queried twice (cold then after the whole shard, i.e. after LRU eviction) and once inside a Segment ('a' + c + 'b': Segment.cell_length; "
+    rule = ("all 1,114,112 code points (sharded), each queried twice (cold then after the whole shard, i.e. after LRU eviction) followed by each of VS16 / VS15 / ZWJ / U+0301 / U+20E3 (cell_len of the pair), and once inside a Segment ('a' + c + 'b': Segment.cell_length; "
             "adjust_line_length for all zero-width and every 17th wide code point); "
             "non-trivial = code point outside the ASCII shortcut that lies in a table row (width != default)")
     budget = {"quick": (16, 1), "thorough": (16, 1)}
@@ -86,6 +89,15 @@ class CodePoints(Part):
             for cp in range(lo, hi):
                 if 0xD800 <= cp <= 0xDFFF or W[cp] < 0:
                     continue
+                # the width of a string is the sum of its characters' widths whatever follows a character (variation selectors, joiners, combining marks, keycap)
+                for fo in FOLLOWERS:
+                    n += 1
+                    pair = chr(cp) + fo
+                    if sut(RC.cell_len, pair) != W[cp] + OC.width(fo):
+                        bad = (cp, "cell_len(%r)=%r" % (pair, RC.cell_len(pair)), W[cp] + OC.width(fo), "pair")
+                        break
+                if bad:
+                    break
                 seg = Segment("a" + chr(cp) + "b")
                 n += 1
                 if sut(lambda: seg.cell_length) != 2 + W[cp]:
@@ -101,7 +113,7 @@ class CodePoints(Part):
                     if bad:
                         break
         if bad:
-            ctx.violation("lookup", "C13/lookup/%s" % ("segment" if str(bad[3]).startswith("segment") else "codepoint"), "U+%04X: rich says %r, table scan says %r (pass %r)" % bad)
+            ctx.violation("lookup", "C13/lookup/%s" % ("segment" if str(bad[3]).startswith("segment") else ("pair" if bad[3] == "pair" else "codepoint")), "U+%04X: rich says %r, table scan says %r (pass %r)" % bad)
             spec = {"cp": bad[0]}
         else:
             spec = {"cp": lo}
@@ -121,6 +133,11 @@ class CodePoints(Part):
             ctx.violation("lookup", "C13/lookup/codepoint", "U+%04X: rich %r, table %r" % (cp, got, OC.table()[cp]))
         from rich.segment import Segment
 
+        if not 0xD800 <= cp <= 0xDFFF:
+            for fo in FOLLOWERS:
+                pair = chr(cp) + fo
+                if sut(RC.cell_len, pair) != OC.width(pair):
+                    ctx.violation("lookup", "C13/lookup/pair", "cell_len(%r) = %r, the characters' widths sum to %r" % (pair, RC.cell_len(pair), OC.width(pair)))
         if not 0xD800 <= cp <= 0xDFFF and OC.table()[cp] >= 0:
             seg = Segment("a" + chr(cp) + "b")
             if sut(lambda: seg.cell_length) != 2 + OC.table()[cp]:
